@@ -31,6 +31,8 @@ type QTx struct {
 	feat       map[string]bool // features for the searcher's classification
 	locked     *big.Int        // stake this tx locks when it succeeds
 	onSuccess  func()          // harness bookkeeping when the transaction succeeded
+	canRevert  bool            // a REVERT / INVALID is reachable
+	unstakeSum *big.Int        // sum of the reachable UNSTAKE amounts
 	canUnstake bool            // an UNSTAKE is reachable from this transaction (set by the searcher)
 	mayBurn    bool            // a SELFDESTRUCT is reachable from this transaction (set by the searcher)
 }
@@ -124,7 +126,10 @@ func (w *World) Univ(as []common.Address) {
 }
 
 func (w *World) Set(a common.Address, v *big.Int) {
-	w.adb.SetBalance(a, v)
+	// retention: the argument is scribbled over after the call; a retained pointer would show as a diff
+	tmp := new(big.Int).Set(v)
+	w.adb.SetBalance(a, tmp)
+	tmp.SetInt64(-987654321)
 	w.out.Emit(fmt.Sprintf("set %s %s", hexAddr(a), v.String()), "ok")
 }
 
@@ -203,7 +208,9 @@ func (w *World) stateLine() string {
 	sb.WriteString(w.stakedTokens().String())
 	for _, a := range w.univ {
 		sb.WriteByte(' ')
-		sb.WriteString(w.adb.GetBalance(a).String())
+		b := w.adb.GetBalance(a)
+		sb.WriteString(b.String())
+		b.SetInt64(-123456789) // retention: a returned pointer into cached state would corrupt the next read
 	}
 	return sb.String()
 }
@@ -211,7 +218,7 @@ func (w *World) stateLine() string {
 // budget: gas forwarded to a callee = 2M per action it can (transitively) execute, plus slack.
 func (w *World) budget(to common.Address) uint64 {
 	unit := uint64(2000000)
-	if !w.flags.P026 {
+	if !w.flags.P026 && !strings.Contains(w.fork.label, "@026") {
 		unit = 70000 // gas costs are 30 times smaller before the Proposal026 magnification
 	}
 	return unit * uint64(w.scriptCost(w.codes[to], 0)+1)
@@ -249,6 +256,8 @@ func (w *World) QueueOperator(src common.Address, targets []Target, badJSON bool
 		extra = "{\"0x01\":{\"balance\":"
 		dataOk = false
 		targets = nil
+	} else if len(targets) == 0 && w.seq%2 == 1 {
+		extra = "{}" // an empty object rather than absent data: both are a successful no-op
 	} else if len(targets) > 0 {
 		m := map[string]types.TransferData{}
 		for _, t := range targets {
@@ -353,7 +362,7 @@ func (w *World) Exec() BlockResult {
 	res := BlockResult{Before: w.Total(), WBefore: w.Wealth(), P002: w.flags.P002}
 	w.height++
 	common.SetBlockHeight(w.height)
-	curWorld = w
+	setCurWorld(w)
 	w.escrowHeights[w.height+36000] = true
 	block := &types.Block{Header: &types.BlockHeader{Height: w.height, CurTime: time.Unix(1700000000+int64(w.height), 0),
 		Castor: []byte{0xca, 0x57}}}
